@@ -27,6 +27,7 @@ ENV = {"ASAN_OPTIONS": "detect_leaks=0:abort_on_error=1:handle_abort=1", "UBSAN_
 class Stub:
     def __init__(self, seed, tier):
         self.rng = random.Random(seed); self.tier = tier; self.seed = seed
+        self.extra = {}; self.streams = {}; self.notes = []; self.samples = []; self.evaluations = 0; self.nontrivial = set()
 
 def harvest(seed, tier):
     """case lines of the other properties' generators"""
@@ -37,7 +38,7 @@ def harvest(seed, tier):
             m = importlib.import_module("props." + mod)
             r = getattr(m, fn)(Stub(seed * 31 + int(mod[1:]), "quick"))
         except Exception as ex:
-            out[mod + ":generator-error:" + type(ex).__name__] = []
+            out[mod + ":generator-error:" + type(ex).__name__ + ":" + str(ex)[:80]] = []
             continue
         if isinstance(r, tuple): r = r[0]
         if isinstance(r, dict):
